@@ -209,6 +209,7 @@ PROGRAMS = [
     "def f():\n    global a\n    a = 1\n",
     "x = 5\ny = b'a'\nz = ...\n",
     "y = 1\nx = foo()\n",
+    "for _ in range(3):\n    pass\n_ = 0\n_total = 0\nprint(_)\n",
 ]
 PATTERNS = [
     "_acc_ = 0\nfor ___ in ___:\n    _acc_ = _acc_ + __e__",
@@ -220,6 +221,8 @@ PATTERNS = [
     "_x_ += 1", "import math", "math.pi", "___.pi * ___", "self.name = name", "_d_[_k_]", "[___ for ___ in ___]",
     "try:\n    pass\nexcept ValueError:\n    pass", "count = 0", "total = 0\nprint(total)", "x = 5\ny = x + 1",
     "nonexistent_name = 0", "print('absent text')", "_x_ = 12345", "zzz(___)",
+    # identifiers made of or framed by underscores that are NOT placeholders
+    "for _ in ___:\n    pass", "_ = 0", "__ = 0", "_total = 0", "total_ = 0", "print(_)",
     "_x_ = 1\n_x_()", "global a, b", "global a", "x = b'a'", "x = ...", "_v_ = b'zz'", "y = 1\nfoo()",
 ]
 
